@@ -33,9 +33,17 @@ func (c *Ctx) RepoProg() *Prog {
 	}
 	overlay := map[string][]byte{}
 	for name, src := range fixtureFiles {
-		overlay[c.Repo+"/internal/zzveriffixture/"+name] = []byte(src)
+		overlay[c.Repo+"/"+fixturePkg+"/"+name] = []byte(src)
 	}
-	p, err := LoadProgOverlay(c.Repo, gomod, true, overlay, ".", "./internal/zzveriffixture")
+	gm := BuildGM(c.Repo)
+	patterns := []string{".", "./" + fixturePkg}
+	for k, v := range gm.Overlay(c.Repo) {
+		overlay[k] = v
+	}
+	for _, d := range gm.Dirs() {
+		patterns = append(patterns, "./"+gmRoot+"/"+d)
+	}
+	p, err := LoadProgOverlay(c.Repo, gomod, true, overlay, patterns...)
 	if err != nil {
 		c.Undecided("E0", "load "+c.Repo, err.Error())
 		panic("cannot load repository: " + err.Error())
@@ -47,6 +55,7 @@ func (c *Ctx) RepoProg() *Prog {
 		c.Undecided("E0", "reachable functions", "fewer than 400 module functions reachable from main")
 	}
 	c.Note("E0: loaded %d module packages, %d reachable module functions", len(p.Pkgs), len(p.Reach))
+	p.GM = gm
 	repoProg = p
 	return p
 }
